@@ -270,19 +270,49 @@ def run_history(text, opts, d, profile="debug", keep_snaps=False, timeout=120, e
             diffs.append((i, c, e, "<no output: process %s>" % ("timed out (hang)" if rc == 124 else "died rc=%d" % rc)))
             break
         a = act[i]
-        if e == "*":
+        if e == "*" or e.startswith("snap= "):
             if a.startswith("check:") and a != "check:ok":
                 checks_bad.append((i, c, "check:ok", a))
             if a.startswith("snap:") and not a.startswith("snap:ERR"):
-                snaps.append((i, a[5:]))
+                snaps.append((i, a[5:], e[6:] if e.startswith("snap= ") else None))
             continue
         if a not in e.split(" || "):
             diffs.append((i, c, e, a))
         if a.startswith("err:") or a.startswith("panic:"):
             nontrivial += 1
     res = dict(diffs=diffs, checks_bad=checks_bad, n=len(cmds), snaps=snaps, rc=rc, act=act, exp=exp, cmds=cmds,
-               hooks=hooks, nontrivial_results=nontrivial, dir=d)
+               hooks=hooks, nontrivial_results=nontrivial, dir=d, opts=opts)
     return res
+
+
+def check_snapshots(res, pagesize):
+    """Decode every snapshot of this run with the extracted Gallina decoder: inv_check must accept it
+    and its logical contents must equal the reference's committed state. Appends to res['checks_bad']."""
+    snaps = res.get("snaps") or []
+    if not snaps:
+        return 0
+    rc, out = sh([MONITOR, "inv", str(pagesize)] + [s[1] for s in snaps], timeout=300)
+    lines = [l for l in out.split("\n") if l.strip()]
+    byfile = {}
+    for l in lines:
+        f, _, rest = l.partition(" ")
+        byfile[f] = rest
+    n = 0
+    for (i, f, want) in snaps:
+        got = byfile.get(f)
+        n += 1
+        if got is None:
+            res["checks_bad"].append((i, "snap", "decoder output", "monitor produced nothing for %s: %s" % (f, out[-200:])))
+            continue
+        if not got.startswith("inv:ok "):
+            res["checks_bad"].append((i, "snap (inv_check on the committed file)", "inv:ok", got[:200]))
+            continue
+        if want is not None:
+            j = got.find("rootnext=")
+            if got[j:] != want:
+                res["checks_bad"].append((i, "snap (decoded contents vs reference)", want[:150], got[j:j + 150]))
+    res["snap_meta"] = [(i, byfile.get(f, "")[:byfile.get(f, "").find(" rootnext=")]) for (i, f, w) in snaps]
+    return n
 
 
 def first_problem(res):
@@ -331,8 +361,9 @@ def shrink(text, opts, rundir, profile, same_kind, budget_s=60):
                 continue
             d = rundir.sub()
             r = run_history("\n".join(cand) + "\n", opts, d, profile=profile, timeout=60)
+            ok = same_kind(r)
             shutil.rmtree(d, ignore_errors=True)
-            if same_kind(r):
+            if ok:
                 lines = cand
                 n = max(n - 1, 2)
                 reduced = True
@@ -403,3 +434,57 @@ class Report:
 def describe_problem(label, prob):
     i, c, e, a = prob
     return "%s: command #%d `%s` expected `%s` got `%s`" % (label, i, c[:80], e[:120], a[:160])
+
+
+# ----------------------------------------------------------------------------------------------
+# cursor model (Coq, extracted) vs library on the same committed file
+# ----------------------------------------------------------------------------------------------
+READ_OPS = ("scan", "seek", "range", "get", "buckets", "kvpairs")
+
+
+def cursor_corr(res, pagesize):
+    """For every read call of a read-only transaction whose snapshot file was captured, evaluate the
+    Gallina cursor machine on the decoded file and compare with what the library returned.
+    Appends disagreements to res['checks_bad']; returns the number of calls compared."""
+    cmds, act = res["cmds"], res["act"]
+    snap_at = {}                      # command index -> file
+    for (i, f, w) in res.get("snaps", []):
+        snap_at[i] = f
+    cur_snap = None
+    txs = {}                          # t -> dict(w, snap, handles{h: path})
+    per_snap = {}
+    for i, c in enumerate(cmds):
+        if i >= len(act):
+            break
+        w = c.split()
+        a = act[i]
+        if w[0] == "snap":
+            cur_snap = snap_at.get(i)
+        elif w[0] in ("commit", "reopen"):
+            if w[0] == "commit" and not a.startswith("err:ReadOnly"):
+                cur_snap = None
+        elif w[0] == "begin" and a == "ok":
+            txs[w[1]] = dict(w=(w[2] == "w"), snap=cur_snap, handles={"0": []})
+        elif w[0] in ("getb", "goc", "create") and a == "ok" and w[1] in txs:
+            t = txs[w[1]]
+            if w[2] in t["handles"]:
+                t["handles"][w[4]] = t["handles"][w[2]] + [w[3]]
+        elif w[0] in READ_OPS and w[1] in txs:
+            t = txs[w[1]]
+            if t["w"] or t["snap"] is None or w[2] not in t["handles"] or w[2] == "0":
+                continue
+            path = "/".join(t["handles"][w[2]]) or "/"
+            per_snap.setdefault(t["snap"], []).append((i, c, "%s %s %s" % (w[0], path, " ".join(w[3:])), a))
+    n = 0
+    for snap, ops in per_snap.items():
+        opf = snap + ".ops"
+        open(opf, "w").write("\n".join(o[2] for o in ops) + "\n")
+        rc, out = sh([MONITOR, "cursor", str(pagesize), snap, opf], timeout=300)
+        lines = out.split("\n")
+        for j, (i, c, o, a) in enumerate(ops):
+            m = lines[j] if j < len(lines) else "<none>"
+            # the library appends nothing after the items; normalise trailing spaces
+            n += 1
+            if m.rstrip() != a.rstrip():
+                res["checks_bad"].append((i, c + "   [cursor model vs library]", m[:200], a[:200]))
+    return n
